@@ -1420,8 +1420,10 @@ func Main() {
 	r.Cases("long", r.N(300, 16000), core.Opts{Workers: 16}, longCase)
 	r.Cases("fullstack", r.N(12, 200), core.Opts{Workers: 6}, fullstackCase)
 	r.Cases("atomic", r.N(120, 4000), core.Opts{Workers: 16}, atomicCase)
+	r.Cases("stop", r.N(60, 2000), core.Opts{Workers: 16}, stopCase)
 	if atomic.LoadInt64(&violationsRaised) == 0 { // a chain stops at its first violation, so floors say nothing then
 		r.Floor("saves_observed", 300)
+		r.Floor("stop_waited_for_the_block", 10)
 		r.Floor("old_format_loads_with_a_set_change_in_flight", 30)
 		r.Floor("restarts_with_a_genesis_document_of_other_params", 1000)
 		r.Floor("loads", 200)
